@@ -261,16 +261,33 @@ Proof.
   unfold maxint, two63 in *. change (2 ^ 64) with 18446744073709551616 in *. lia.
 Qed.
 
-(* the documented input domain: optional sign, then one or more digits of the base *)
-Theorem frombase_correct base sg cs : 2 <= base <= 36 -> sign_ok sg -> cs <> [] -> Forall (char_ok base) cs ->
-  exists x, frombase (sg ++ cs) base = Ok x /\ wf x /\
+Lemma split_sign_wf sg lc : sign_ok sg -> lc <> [] -> forallb is_alnum lc = true ->
+  split_sign (sg ++ lc) = Some (match sg with [] => 0 | c :: _ => c end, lc).
+Proof.
+  intros Hsg Hlne Hall. unfold split_sign. destruct lc as [|c0 r0] eqn:El; [congruence|].
+  assert (Hc0 : is_alnum c0 = true) by (cbn [forallb] in Hall; apply andb_prop in Hall; tauto).
+  destruct (alnum_cases c0 Hc0) as (N1 & N2 & _).
+  destruct Hsg as [->|[->| ->]]; cbn [app].
+  - destruct (c0 =? 45) eqn:X1; [lia|]. destruct (c0 =? 43) eqn:X2; [lia|]. cbn [orb]. rewrite Hall. reflexivity.
+  - cbn [Z.eqb Pos.eqb orb]. rewrite Hall. reflexivity.
+  - cbn [Z.eqb Pos.eqb orb]. rewrite Hall. reflexivity.
+Qed.
+
+(* the documented input domain: optional sign, then one or more digits of the base - accepted with the exact value
+   under either policy of the fast-path guard *)
+Theorem frombase_pol_correct g base sg cs : 2 <= base <= 36 -> sign_ok sg -> cs <> [] -> Forall (char_ok base) cs ->
+  exists x, frombase_pol g (sg ++ cs) base = Ok x /\ wf x /\
             uval x = (sign_val sg * dval base (map cval cs)) mod Wfull.
 Proof.
-  intros Hb Hsg Hne Hcs. unfold frombase.
+  intros Hb Hsg Hne Hcs. unfold frombase_pol.
   destruct ((2 <=? base) && (base <=? 36)) eqn:E; [|lia]. cbn [negb].
   destruct (frombase_step base Hb) as (step & E1 & E2 & Hs & Hmax). rewrite E1, E2.
   pose proof Wfull_pos as HW.
   pose proof (dval_bound base (map cval cs) ltac:(lia) (chars_ok_digits _ _ Hcs)) as Hd. rewrite map_length in Hd.
+  assert (Hshape : (if g then shape_ok (sg ++ cs) else true) = true).
+  { destruct g; [|reflexivity]. unfold shape_ok. rewrite (split_sign_wf sg cs Hsg Hne); [reflexivity|].
+    apply forallb_forall. intros c Hc. rewrite Forall_forall in Hcs. exact (proj1 (Hcs c Hc)). }
+  rewrite Hshape, andb_true_r.
   destruct (Nat.ltb_spec (length (sg ++ cs)) step) as [Lt|Ge].
   - (* short string: tonumber *)
     assert (Hlen : (length cs < step)%nat) by (rewrite app_length in Lt; lia).
@@ -315,6 +332,11 @@ Proof.
     + exists r. change (43 =? 45) with false. cbv iota. rewrite Z.mul_1_l. auto.
 Qed.
 
+Theorem frombase_correct base sg cs : 2 <= base <= 36 -> sign_ok sg -> cs <> [] -> Forall (char_ok base) cs ->
+  exists x, frombase (sg ++ cs) base = Ok x /\ wf x /\
+            uval x = (sign_val sg * dval base (map cval cs)) mod Wfull.
+Proof. apply frombase_pol_correct. Qed.
+
 (* invalid base: nil *)
 Theorem frombase_badbase s base : ~ (2 <= base <= 36) -> frombase s base = Err ENone.
-Proof. intros H. unfold frombase. destruct ((2 <=? base) && (base <=? 36)) eqn:E; [lia | reflexivity]. Qed.
+Proof. intros H. unfold frombase, frombase_pol. destruct ((2 <=? base) && (base <=? 36)) eqn:E; [lia | reflexivity]. Qed.
